@@ -247,16 +247,16 @@ Qed.
 
 Theorem brol_exact_refuted : ~ brol_exact.
 Proof.
-  intros H. specialize (H bint_mininteger 161 (proj1 mininteger_correct) ltac:(vm_compute; split; discriminate)).
+  intros H. specialize (H bint_mininteger (BINT_BITS + 1) (proj1 mininteger_correct) ltac:(vm_compute; split; discriminate)).
   destruct H as (r & A & _ & C). vm_compute in A. injection A as <-. vm_compute in C. discriminate.
 Qed.
 
 Theorem bror_exact_refuted : ~ bror_exact.
 Proof.
-  intros H. specialize (H bint_one 161 (proj1 wf_one) ltac:(vm_compute; split; discriminate)).
+  intros H. specialize (H bint_one (BINT_BITS + 1) (proj1 wf_one) ltac:(vm_compute; split; discriminate)).
   destruct H as (r & A & _ & C). vm_compute in A. injection A as <-. vm_compute in C. discriminate.
 Qed.
 
 Example misc_example :
-  bwrap (frominteger (-1)) 8 = Some (frominteger 255) /\ brol bint_one 159 = Some bint_mininteger.
+  bwrap (frominteger (-1)) 8 = Some (frominteger 255) /\ brol bint_one (BINT_BITS - 1) = Some bint_mininteger.
 Proof. split; vm_compute; reflexivity. Qed.
